@@ -1,30 +1,125 @@
 """All jobs and the property table."""
-from . import jobs_util
+from . import jobs_util, jobs_perm, jobs_aead, jobs_spec, jobs_clean, native
 
 JOBS = {}
-for mod in (jobs_util,):
+for mod in (jobs_util, jobs_perm, jobs_aead, jobs_spec, jobs_clean):
     for j in mod.JOBS:
         assert j["name"] not in JOBS, j["name"]
         JOBS[j["name"]] = j
+
+# native replay of counterexamples for the AEAD / SIV family
+for n, j in JOBS.items():
+    if n.startswith(("aead", "siv")) and (".grid" in n or n.endswith((".u", ".ui"))):
+        j["replay"] = native.aead_replay
 
 TRUSTED = [
     "CBMC 6.11 C semantics: LP64, little-endian x86-64 model, bit-vector machine arithmetic exactly as C defines it",
     "goto-instrument legacy (non-DFCC) loop-contract and function-contract instrumentation",
     "SAT back ends: minisat 2.2.1 (built in) / kissat 4.0.1 (external)",
     "CBMC's libc models except memcpy/memset where stubs/mem.c (byte loop) is linked",
+    "the specification text: spec/nlfsr.h (bit-serial NLFSR), spec/tick.h (per-block mode semantics), program tables in stubs/mon.c; validated natively against all 8584 vectors of /repo/test/kat on every run (a test, not a proof)",
     "gcc/clang compile the same source faithfully (compilers, optimisation levels, sanitizer builds, assembly backends are outside a source-level verifier)",
 ]
+MODULAR = ("modular step: callers are verified against the contract stubs of setup/absorb/generate_tag/check_tag and of the permutation "
+           "(stubs/mon.c); every stub contract is discharged against the real callee in leaf*.*, util.check_tag.* and perm*.R* jobs; "
+           "the composition (a theorem proved for every permutation function holds for the NLFSR) is the standard modular argument, not re-checked by the tool")
+
+NN = (128, 192, 256)
+LEAF = ["leaf%d.%s" % (n, k) for n in NN for k in ("setup", "tag", "absorb")]
+UTIL = ["util.check_tag.contract", "util.check_tag.size8", "util.check_tag.grid"]
+PERM_Q = [j["name"] for j in jobs_perm.JOBS if j["quick"]]
+PERM_ALL = [j["name"] for j in jobs_perm.JOBS]
+PERM_LIB = ["perm128.R05", "perm128.R08", "perm192.R05", "perm192.R09", "perm256.R05", "perm256.R10"]
+
+
+def names(mode, kinds, suffixes):
+    return ["%s%d.%s.%s" % (mode, n, k, s) for n in NN for k in kinds for s in suffixes]
+
 
 PROPS = {
+    "C01": {
+        "level": "proof",
+        "quick": LEAF + UTIL + names("aead", ["enc", "dec"], ["grid"]) + ["spec.aead.rt", "spec.aead.rt2"],
+        "thorough": LEAF + UTIL + names("aead", ["enc", "dec"], ["grid", "u", "ui"]) + ["spec.aead.rt", "spec.aead.rt2"],
+        "pre": [native.katcheck], "campaign": native.aead_campaign,
+        "text": "encrypt == SpecEnc and decrypt == SpecDec for the real tinyjambu_{128,192,256}_aead_{encrypt,decrypt} (spec monitor inside the permutation's contract stub; leaf functions under contracts; loop contracts close the data loops for all lengths in the thorough tier) + spec-level lemma SpecDec(SpecEnc(m)) = m with equal tags for every permutation; in-place variants with a load-before-store ghost check.",
+        "note": "quick tier: AD loop (absorb), setup, tag, check_tag unbounded; the message loops of encrypt/decrypt are covered by the bounded grid (concrete lengths, symbolic data) and unbounded only in the thorough tier. " + MODULAR + ". Alignment: CBMC's memory model is alignment-insensitive (all accesses in these files are byte-wide). Compilers/optimisation levels not covered.",
+        "technique": "CBMC contracts: spec monitor in callee contract stubs + loop contracts on the real loops",
+        "trusted": TRUSTED,
+    },
+    "C02": {
+        "level": "proof",
+        "quick": PERM_LIB + LEAF + names("aead", ["enc"], ["grid"]),
+        "thorough": PERM_LIB + LEAF + names("aead", ["enc"], ["grid", "u", "ui"]),
+        "pre": [native.katcheck], "campaign": native.aead_campaign,
+        "text": "L0: the C permutations equal the bit-serial NLFSR of the specification for the round counts the AEAD uses (5, 8/9/10), all states and keys; L1: encrypt == SpecEnc (frame bits 1/3/5/7, 640-step and long permutations, partial-block length injection, two-squeeze tag) for every permutation function.",
+        "note": "spec <-> TinyJAMBU v2 paper correspondence is by reading plus native KAT replay of the reference model; message loop unbounded only in the thorough tier (quick: bounded grid). " + MODULAR + ". Compilers, optimisation levels, shared vs static objects not covered.",
+        "technique": "CBMC equivalence miter (kissat) for the permutation + contract/loop-contract proofs against the spec monitor",
+        "trusted": TRUSTED,
+    },
     "C03": {
         "level": "proof",
-        "quick": ["util.check_tag.contract", "util.check_tag.size8"],
-        "text": "tinyjambu_aead_check_tag under an enforced function contract with loop contracts (unbounded plaintext length): result -1 iff some tag byte differs, 0 iff all equal (size 8 complete over all 2^128 tag pairs).",
-        "note": "decrypt-level obligations (accept iff trailing 8 bytes equal the spec tag) are being added; 2^-64 forgery bound is cryptographic and not decided",
-        "technique": "CBMC function contract + loop contracts on the real tinyjambu-util.c",
+        "quick": UTIL + LEAF + names("aead", ["dec"], ["grid", "short"]) + ["spec.aead.rt2"],
+        "thorough": UTIL + LEAF + names("aead", ["dec"], ["grid", "short", "u", "ui"]) + ["spec.aead.rt2"],
+        "pre": [native.katcheck], "campaign": native.aead_campaign,
+        "text": "check_tag contract (0 iff all 8 bytes equal, else -1; complete over all 2^128 tag pairs; unbounded plaintext length) + decrypt == SpecDec with 'check_tag receives the specification's tag and the received tag, all 8 bytes' + lemma RT2 (the recomputed tag is the tag encryption yields for the recovered plaintext) + clen < 8: negative result, nothing written, no cipher call.",
+        "note": "the 2^-64 forgery bound is a cryptographic property of the NLFSR and is not decided. (accum - 1) >> 8 on a negative int is implementation-defined (arithmetic shift assumed, as gcc/clang). Decrypt message loop unbounded only in the thorough tier. " + MODULAR,
+        "technique": "CBMC function contract + loop contracts on check_tag; spec monitor for decrypt",
         "trusted": TRUSTED,
+    },
+    "C04": {
+        "level": "proof",
+        "quick": UTIL + names("aead", ["dec"], ["grid"]) + names("siv", ["dec"], ["grid"]),
+        "thorough": UTIL + names("aead", ["dec"], ["grid", "u", "ui"]) + names("siv", ["dec"], ["grid", "u", "ui"]),
+        "campaign": native.aead_campaign,
+        "text": "check_tag postcondition at an arbitrary ghost index: reject => byte is 0, accept => byte unchanged, for every plaintext length up to 2^40 (loop contract); the 6 decrypt functions pass the start of the plaintext buffer and the full length (asserted by the check_tag contract stub) and on reject every plaintext byte is 0.",
+        "note": "the decrypt-side argument-passing obligation is checked on the bounded grid in the quick tier and unboundedly (loop contracts) in the thorough tier. " + MODULAR,
+        "technique": "CBMC function contract with ghost index + loop contracts",
+        "trusted": TRUSTED,
+    },
+    "C05": {
+        "level": "proof",
+        "quick": PERM_Q,
+        "thorough": PERM_ALL,
+        "text": "tinyjambu_permutation_{128,192,256} (portable C backend) == 128*R bit-serial NLFSR steps for all 2^128 states and all keys, R = 0..24 (thorough; quick: R in {0,1,2,5,8|9|10,20} per key size); key words unchanged (frame); each obligation loop-free after complete unwinding (unwinding assertions on).",
+        "note": "ONLY the portable C backend. The 24 assembly files (AVR5, ARMv6/6-M/7-M, RV32E/32I/64I, Xtensa both ABIs), callee-saved registers/stack discipline and byte-identity with the generator programs are out of reach of CBMC (no assembly front end; an instruction-to-C translation would be a hand-written model) - a mutation of a .S file or generator is NOT detected by this check.",
+        "technique": "CBMC equivalence miter, complete unwinding, kissat back end",
+        "trusted": TRUSTED,
+        "exhaustive": True,
+    },
+    "C08": {
+        "level": "proof",
+        "quick": LEAF + UTIL + names("siv", ["enc", "dec"], ["grid"]) + names("siv", ["dec"], ["short"]) + ["spec.siv.rt"],
+        "thorough": LEAF + UTIL + names("siv", ["enc", "dec"], ["grid", "u", "ui"]) + names("siv", ["dec"], ["short"]) + ["spec.siv.rt"],
+        "pre": [native.katcheck], "campaign": native.aead_campaign,
+        "text": "siv_encrypt == SpecSivEnc and siv_decrypt == SpecSivDec (two-pass program: MAC pass with nonce domain 9, keystream pass keyed by npub[0..3] || tag with domains B/D) for the 6 real functions; decrypt's MAC pass runs over the recovered plaintext and check_tag gets the specification's tag and the received tag; keystream lemma SpecDec(SpecEnc(m)) = m; clen < 8 rejected without processing.",
+        "note": "keystream loops unbounded only in the thorough tier (quick: bounded grid). " + MODULAR,
+        "technique": "CBMC contracts: spec monitor in callee contract stubs + loop contracts",
+        "trusted": TRUSTED,
+    },
+    "C09": {
+        "level": "proof",
+        "quick": LEAF + names("siv", ["enc"], ["grid"]),
+        "thorough": LEAF + names("siv", ["enc"], ["grid", "u", "ui"]),
+        "pre": [native.katcheck], "campaign": native.aead_campaign,
+        "text": "construction part: siv_encrypt output == documented two-pass construction for every input: tag = TinyJAMBU MAC over (nonce, AD, plaintext) with nonce domain 0x90; body = plaintext XOR keystream whose permutation inputs are functions of (key, npub[0..3], tag) only (the plaintext enters only the output XOR in pass 2).",
+        "note": "NOT decided: 'two messages differing in any bit get different IVs and unrelated bodies beyond chance' is a probabilistic statement about the MAC (PRF assumption); it follows from the construction and is recorded as an assumption. Determinism: no other inputs (see C19). " + MODULAR,
+        "technique": "CBMC contracts: spec monitor in callee contract stubs + loop contracts",
+        "trusted": TRUSTED,
+        "assumptions": ["nonce-misuse resistance beyond the construction equality (distinct inputs => distinct IVs except by chance) is cryptographic, not decided"],
     },
 }
 
+PROPS["C20"] = {
+    "level": "proof",
+    "quick": [j["name"] for j in jobs_clean.JOBS],
+    "text": "tinyjambu_clean (volatile-loop configuration) zeroes exactly [buf, buf+size) for every size 0..2^32-1, exact-size object and any alignment inside a larger object (loop contract, ghost index on both sides); explicit_bzero configuration forwards exactly (buf, size); hash/hmac/hkdf/prng free functions zero every byte of the public state object from arbitrary prior contents (= any history); free(NULL) is a no-op for hash/hmac.",
+    "note": "whether the compiler keeps the stores (volatile / explicit_bzero survive optimisation) is below C semantics and NOT covered; explicit_bzero's own behaviour is an assumed libc contract; SecureZeroMemory / memset_s configurations are not compiled on this platform.",
+    "technique": "CBMC loop contract with ghost index on the real tinyjambu-clean.c; loop-free harnesses for the free functions",
+    "trusted": TRUSTED,
+    "exhaustive": False,
+}
+
+ALL = ["C%02d" % i for i in range(1, 21)]
 NOT_APPLICABLE = {k: "check under construction in this session (see DESIGN.md section 4); not claimed until its obligations are discharged"
-                  for k in ["C01", "C02", "C04", "C05", "C06", "C07", "C08", "C09", "C10", "C11", "C12", "C13", "C14", "C15", "C16", "C17", "C18", "C19", "C20"]}
+                  for k in ALL if k not in PROPS}
